@@ -405,8 +405,9 @@ Section Finish.
   Hypothesis WK : wf K.
   Hypothesis NK : Forall (Forall (fun x => (0 <= x)%Z)) (axis_vecs a K).
 
+  Variable m1 : list bool.      (* the vectors kept on the axis *)
+
   Let vs1 := axis_vecs a K.
-  Let m1 := map posb vs1.
   Let T1 := filter_mask m1 a K.
   Let vs2 := select m1 vs1.
   Let C := n_other a K.
@@ -420,9 +421,8 @@ Section Finish.
     reflexivity.
   Qed.
 
-  Lemma finish_eq : drop_nonpositive (other a) (drop_nonpositive a K) = T2.
+  Lemma finish_eq : drop_nonpositive (other a) T1 = T2.
   Proof.
-    rewrite (drop_nonpositive_mask a K WK). fold vs1 m1 T1.
     assert (W1 : wf T1) by (apply wf_filter_mask; exact WK).
     rewrite (drop_nonpositive_mask (other a) T1 W1). rewrite T1_other_vecs. reflexivity.
   Qed.
@@ -602,8 +602,8 @@ Proof.
   assert (EK : axis_vecs a K = vs1) by (apply axis_vecs_with; assumption).
   assert (NK : Forall (Forall (fun x => (0 <= x)%Z)) (axis_vecs a K)) by (rewrite EK; eapply Rwo_nonneg; exact R).
   assert (IK : forall b, ids b K = ids b t) by (intros b; destruct b; reflexivity).
-  unfold t', subsample_counts. fold K. rewrite (finish_eq a K WK).
-  rewrite (drop_nonpositive_mask a K WK).
+  unfold t', subsample_counts. fold K. rewrite (drop_nonpositive_mask a K WK).
+  rewrite (finish_eq a K) by assumption.
   split; [apply finish_wf; assumption|].
   split.
   { rewrite finish_ids_axis by assumption. rewrite IK, EK. f_equal. apply (Forall2_map_eq (Rwo n)); [exact R|].
@@ -619,16 +619,15 @@ Proof.
     apply Z.leb_le in Hp. destruct (Z.ltb_spec (zsum v0) (Z.of_nat n)); [lia|reflexivity]. }
   split.
   { intros o s v Hc.
-    assert (Ho : In o (oids (filter_mask (map posb (transpose (n_other a K) (select (map posb (axis_vecs a K)) (axis_vecs a K))))
-                                         (other a) (filter_mask (map posb (axis_vecs a K)) a K)))).
+    match type of Hc with cell ?T _ _ = _ => set (TT := T) in * end.
+    assert (Ho : In o (oids TT)).
     { unfold cell in Hc. destruct (pos o (oids _)) as [i|] eqn:E; [|discriminate].
       apply pos_Some in E. destruct E as [<- Hi]. apply nth_In. exact Hi. }
-    assert (Hs : In s (sids (filter_mask (map posb (transpose (n_other a K) (select (map posb (axis_vecs a K)) (axis_vecs a K))))
-                                         (other a) (filter_mask (map posb (axis_vecs a K)) a K)))).
+    assert (Hs : In s (sids TT)).
     { unfold cell in Hc. destruct (pos o (oids _)) as [i|]; [|discriminate].
       destruct (pos s (sids _)) as [j|] eqn:E; [|discriminate].
       apply pos_Some in E. destruct E as [<- Hj]. apply nth_In. exact Hj. }
-    rewrite (finish_cell a K) in Hc by assumption. unfold K, kernel_table_wo in Hc. rewrite cell_with_axis_vecs in Hc.
+    unfold TT in *. rewrite (finish_cell a K) in Hc by assumption. unfold K, kernel_table_wo in Hc. rewrite cell_with_axis_vecs in Hc.
     rewrite (cell_axis_vecs a t o s W).
     destruct (pos o (oids t)) as [i|]; [|discriminate]. destruct (pos s (sids t)) as [j|]; [|discriminate].
     inversion Hc; subst. eexists. split; [reflexivity|].
@@ -638,4 +637,304 @@ Proof.
   split; [intros x Hx; rewrite (finish_md_axis a K) by assumption; apply md_of_with_axis_vecs|].
   split; [intros y Hy; rewrite (finish_md_other a K) by assumption; apply md_of_with_axis_vecs|].
   rewrite finish_type by assumption. reflexivity.
+Qed.
+
+(* ------------------------------------------------------------------ with replacement *)
+Definition Rrep (n : nat) (v v' : list Z) : Prop :=
+  length v' = length v /\ (forall j, (0 <= nth j v' 0)%Z) /\ zsum v' = Z.of_nat n /\
+  (forall j, nth j v 0%Z = 0%Z -> nth j v' 0%Z = 0%Z).
+
+Lemma rep_seg_R n v ord d :
+  ord_wf v ord -> multi_ok n (gather 0%Z ord v) d -> Rrep n v (scatter 0%Z (length v) ord d).
+Proof.
+  intros (Hn & Hb & Hs) (L & N & S & Z0). rewrite gather_length in L. unfold Rrep.
+  split; [apply scatter_length|]. split; [|split].
+  - intros j. destruct (Nat.lt_ge_cases j (length v)) as [Hj|Hj].
+    + rewrite nth_scatter by exact Hj. destruct (nfind j ord); [apply Forall_nth_nonneg; exact N|lia].
+    + rewrite nth_overflow by (rewrite scatter_length; exact Hj). lia.
+  - rewrite zsum_scatter by assumption. exact S.
+  - intros j Hz. destruct (Nat.lt_ge_cases j (length v)) as [Hj|Hj].
+    + rewrite nth_scatter by exact Hj. destruct (nfind j ord) as [k|] eqn:E; [|reflexivity].
+      apply nfind_Some in E. destruct E as [E Hk]. apply Z0. unfold gather.
+      rewrite (nth_map_in _ ord k 0 0%Z Hk). rewrite E. exact Hz.
+    + apply nth_overflow. rewrite scatter_length. exact Hj.
+Qed.
+
+Lemma gather_all_cons v vs ord lay : gather_all (v :: vs) (ord :: lay) = gather 0%Z ord v :: gather_all vs lay.
+Proof. reflexivity. Qed.
+
+Lemma rep_vecs_R n : forall vs lay draws,
+  lay_wf vs lay -> Forall (fun v => (0 < zsum v)%Z) vs -> multis_ok n (gather_all vs lay) draws ->
+  exists vs1, rep_vecs vs lay draws = Some vs1 /\ Forall2 (Rrep n) vs vs1.
+Proof.
+  intros vs lay draws H. revert draws. induction H as [|v ord vs lay W _ IH]; intros draws Hp Hd.
+  - exists []. split; [reflexivity|constructor].
+  - inversion Hp as [|? ? Hp1 Hp2]; subst. rewrite gather_all_cons in Hd. simpl in Hd.
+    destruct draws as [|d rest]; [contradiction|]. destruct Hd as [D1 D2].
+    destruct (IH rest Hp2 D2) as [vs1 [E1 R1]].
+    simpl. unfold rep_seg. rewrite (zsum_gather v ord W).
+    destruct (Z.eqb_spec (zsum v) 0) as [E|_]; [lia|]. rewrite E1. simpl.
+    eexists. split; [reflexivity|]. constructor; [apply rep_seg_R; assumption|exact R1].
+Qed.
+
+(* a vector without counts makes the kernel raise: rng.multinomial(n, []) is a ValueError *)
+Lemma rep_vecs_zero_vector : forall vs lay draws,
+  lay_wf vs lay -> (exists v, In v vs /\ zsum v = 0%Z) -> rep_vecs vs lay draws = None.
+Proof.
+  intros vs lay draws H. revert draws. induction H as [|v ord vs lay W _ IH]; intros draws [v0 [Hin Hz]]; [contradiction|].
+  simpl. unfold rep_seg. rewrite (zsum_gather v ord W). destruct Hin as [->|Hin].
+  - rewrite Hz. reflexivity.
+  - destruct (zsum v =? 0)%Z; [reflexivity|]. destruct draws as [|d rest]; [reflexivity|].
+    rewrite IH; [reflexivity|]. exists v0. split; assumption.
+Qed.
+
+Theorem subsample_replace_raises a lay draws t :
+  wf t -> lay_wf (axis_vecs a t) lay -> (exists v, In v (axis_vecs a t) /\ zsum v = 0%Z) ->
+  subsample_replace a lay draws t = RErr E_VALUE.
+Proof. intros W HL Hz. unfold subsample_replace. rewrite rep_vecs_zero_vector by assumption. reflexivity. Qed.
+
+Lemma Rrep_shape n C vs vs1 : Forall2 (Rrep n) vs vs1 -> rect C vs -> rect C vs1 /\ length vs1 = length vs.
+Proof.
+  intros H R. split; [|symmetry; eapply F2_length; exact H].
+  unfold rect in *. induction H as [|v v' vs vs1 (L & _) _ IH]; [constructor|].
+  inversion R; subst. constructor; [congruence|apply IH; assumption].
+Qed.
+
+Lemma Rrep_nonneg n vs vs1 : Forall2 (Rrep n) vs vs1 -> Forall (Forall (fun x => (0 <= x)%Z)) vs1.
+Proof.
+  induction 1 as [|v v' vs vs1 (_ & B & _) _ IH]; constructor; [|exact IH]. apply nonneg_of_nth. exact B.
+Qed.
+
+Lemma Rrep_get n vs vs1 : Forall2 (Rrep n) vs vs1 ->
+  forall i j, (0 <= get vs1 i j)%Z /\ (get vs i j = 0%Z -> get vs1 i j = 0%Z).
+Proof.
+  intros H. induction H as [|v v' vs vs1 (_ & B & _ & Z0) _ IH]; intros i j.
+  - unfold get. destruct i, j; simpl; split; (lia || reflexivity).
+  - destruct i as [|i]; [split; [apply B|apply Z0]|apply IH].
+Qed.
+
+Lemma select_all_true {A} m (l : list A) : Forall (fun b => b = true) m -> length m = length l -> select m l = l.
+Proof.
+  intros H. revert l. induction H as [|b m Hb _ IH]; intros [|x l] Hl; simpl in *; try discriminate; [reflexivity|].
+  subst b. f_equal. apply IH. lia.
+Qed.
+
+Theorem subsample_replace_spec n a lay draws t :
+  wf t -> nonneg_table t -> 1 <= n -> lay_wf (axis_vecs a t) lay ->
+  Forall (fun v => (0 < zsum v)%Z) (axis_vecs a t) ->
+  multis_ok n (gather_all (axis_vecs a t) lay) draws ->
+  exists t', subsample_replace a lay draws t = ROk t' /\ wf t' /\
+    ids a t' = ids a t /\
+    Forall (fun v => zsum v = Z.of_nat n) (axis_vecs a t') /\
+    (forall o s v, cell t' o s = Some v -> (0 <= v)%Z /\ (v <> 0%Z -> cell t o s <> Some 0%Z)) /\
+    Forall (fun c => all_zero c = false) (axis_vecs (other a) t') /\
+    (forall x, In x (ids a t') -> md_of a t' x = md_of a t x) /\
+    (forall y, In y (ids (other a) t') -> md_of (other a) t' y = md_of (other a) t y) /\
+    ttype t' = ttype t.
+Proof.
+  intros W NN Hn HL HP HD.
+  destruct (rep_vecs_R n (axis_vecs a t) lay draws HL HP HD) as [vs1 [E R]].
+  unfold subsample_replace. rewrite E. eexists. split; [reflexivity|].
+  destruct (Rrep_shape n (n_other a t) _ _ R (axis_vecs_rect a t W)) as [Rc Rl].
+  rewrite (axis_vecs_length a t W) in Rl.
+  set (K := with_axis_vecs a t vs1).
+  assert (WK : wf K) by (apply wf_with_axis_vecs; assumption).
+  assert (EK : axis_vecs a K = vs1) by (apply axis_vecs_with; assumption).
+  assert (NK : Forall (Forall (fun x => (0 <= x)%Z)) (axis_vecs a K)) by (rewrite EK; eapply Rrep_nonneg; exact R).
+  assert (IK : forall b, ids b K = ids b t) by (intros b; destruct b; reflexivity).
+  assert (AllPos : Forall (fun b => b = true) (map posb (axis_vecs a K))).
+  { rewrite EK. apply Forall_forall. intros b Hb. apply in_map_iff in Hb. destruct Hb as [v' [<- Hv']].
+    destruct (F2_in_r _ _ _ _ R Hv') as [v0 [_ (_ & _ & S & _)]]. unfold posb. rewrite S. apply Z.ltb_lt. lia. }
+  rewrite (drop_nonpositive_mask a K WK). rewrite (finish_eq a K) by assumption.
+  split; [apply finish_wf; assumption|].
+  split.
+  { rewrite finish_ids_axis by assumption. rewrite IK. apply select_all_true; [exact AllPos|].
+    rewrite map_length, EK. exact Rl. }
+  split.
+  { rewrite finish_vecs_axis by assumption. apply Forall_forall. intros v' Hv'. apply in_map_iff in Hv'.
+    destruct Hv' as [v2 [<- Hv2]]. rewrite (finish_sum a K) by assumption.
+    assert (Hin : In v2 (axis_vecs a K)) by (eapply select_In; exact Hv2).
+    rewrite EK in Hin. destruct (F2_in_r _ _ _ _ R Hin) as [v0 [_ (_ & _ & S & _)]]. exact S. }
+  split.
+  { intros o s v Hc.
+    match type of Hc with cell ?T _ _ = _ => set (TT := T) in * end.
+    assert (Ho : In o (oids TT)).
+    { unfold cell in Hc. destruct (pos o (oids _)) as [i|] eqn:E0; [|discriminate].
+      apply pos_Some in E0. destruct E0 as [<- Hi]. apply nth_In. exact Hi. }
+    assert (Hs : In s (sids TT)).
+    { unfold cell in Hc. destruct (pos o (oids _)) as [i|]; [|discriminate].
+      destruct (pos s (sids _)) as [j|] eqn:E0; [|discriminate].
+      apply pos_Some in E0. destruct E0 as [<- Hj]. apply nth_In. exact Hj. }
+    unfold TT in *. rewrite (finish_cell a K) in Hc by assumption. unfold K in Hc.
+    rewrite cell_with_axis_vecs in Hc. rewrite (cell_axis_vecs a t o s W).
+    destruct (pos o (oids t)) as [i|]; [|discriminate]. destruct (pos s (sids t)) as [j|]; [|discriminate].
+    injection Hc as <-.
+    assert (G : (0 <= aget a vs1 i j)%Z /\ (aget a (axis_vecs a t) i j = 0%Z -> aget a vs1 i j = 0%Z))
+      by (destruct a; simpl; apply (Rrep_get n _ _ R)).
+    destruct G as [G1 G2]. split; [exact G1|]. intros Hnz Hsome. inversion Hsome as [Hz]. apply Hnz. apply G2. exact Hz. }
+  split.
+  { rewrite finish_vecs_other_nz by assumption. apply Forall_forall. intros c Hc. apply filter_In in Hc.
+    destruct Hc as [_ Hc]. apply negb_true_iff in Hc. exact Hc. }
+  split; [intros x Hx; rewrite (finish_md_axis a K) by assumption; apply md_of_with_axis_vecs|].
+  split; [intros y Hy; rewrite (finish_md_other a K) by assumption; apply md_of_with_axis_vecs|].
+  rewrite finish_type by assumption. reflexivity.
+Qed.
+
+(* ------------------------------------------------------------------ by id *)
+Lemma NoDup_filter_Z (f : Z -> bool) l : NoDup l -> NoDup (filter f l).
+Proof.
+  induction 1 as [|x l Hx _ IH]; simpl; [constructor|]. destruct (f x); [|exact IH].
+  constructor; [|exact IH]. intros H. apply filter_In in H. tauto.
+Qed.
+
+Lemma NoDup_app_l {A} (l1 l2 : list A) : NoDup (l1 ++ l2) -> NoDup l1.
+Proof.
+  induction l1 as [|x l1 IH]; simpl; intros H; [constructor|]. inversion H as [|? ? Hx Hr]; subst.
+  constructor; [|apply IH; exact Hr]. intros Hin. apply Hx. apply in_or_app. left. exact Hin.
+Qed.
+
+Lemma NoDup_firstn_Z n (l : list Z) : NoDup l -> NoDup (firstn n l).
+Proof.
+  intros H. rewrite <- (firstn_skipn n l) in H. eapply NoDup_app_l. exact H.
+Qed.
+
+Lemma count_members l s : NoDup l -> NoDup s -> incl s l -> length (filter (fun x => zmem x s) l) = length s.
+Proof.
+  intros Hl Hs Hi. apply Permutation_length. apply NoDup_Permutation; [apply NoDup_filter_Z; exact Hl|exact Hs|].
+  intros x. rewrite filter_In, zmem_In. split; [tauto|]. intros H. split; [apply Hi; exact H|exact H].
+Qed.
+
+Lemma by_id_mask subset a t :
+  map (fun c : list Z * Z * option Tree => zmem (snd (fst c)) subset) (pred_calls a t)
+  = map (fun i => zmem i subset) (ids a t).
+Proof.
+  transitivity (map (fun i => zmem i subset) (map (fun c : list Z * Z * option Tree => snd (fst c)) (pred_calls a t))).
+  - rewrite map_map. reflexivity.
+  - rewrite pred_calls_ids. reflexivity.
+Qed.
+
+Theorem subsample_by_id_spec n a shuffled t :
+  wf t -> nonneg_table t -> Permutation (ids a t) shuffled ->
+  let keep := map (fun i => zmem i (firstn n shuffled)) (ids a t) in
+  let t' := subsample_by_id n a shuffled t in
+  wf t' /\
+  ids a t' = filter (fun i => zmem i (firstn n shuffled)) (ids a t) /\
+  length (ids a t') = Nat.min n (length (ids a t)) /\
+  (forall o s, In o (oids t') -> In s (sids t') -> cell t' o s = cell t o s) /\
+  ids (other a) t' = select (map (fun c => negb (all_zero c)) (axis_vecs (other a) (filter_mask keep a t)))
+                            (ids (other a) t) /\
+  (forall x, In x (ids a t') -> md_of a t' x = md_of a t x) /\
+  (forall y, In y (ids (other a) t') -> md_of (other a) t' y = md_of (other a) t y) /\
+  ttype t' = ttype t.
+Proof.
+  intros W NN HP keep t'. pose proof (nonneg_axis_vecs a t NN) as NK.
+  unfold t', subsample_by_id, filter_pred. rewrite by_id_mask, xorb_false_map. fold keep.
+  rewrite (finish_eq a t) by assumption.
+  assert (EI : select keep (ids a t) = filter (fun i => zmem i (firstn n shuffled)) (ids a t))
+    by (unfold keep; apply select_map_filter).
+  split; [apply finish_wf; assumption|].
+  split; [rewrite finish_ids_axis by assumption; exact EI|].
+  split.
+  { rewrite finish_ids_axis by assumption. rewrite EI.
+    assert (ND : NoDup (ids a t)) by (destruct W as (_ & _ & A & B & _); destruct a; assumption).
+    rewrite count_members.
+    - rewrite firstn_length. rewrite (Permutation_length HP). reflexivity.
+    - exact ND.
+    - apply NoDup_firstn_Z. eapply Permutation_NoDup; [exact HP|exact ND].
+    - intros x Hx. eapply Permutation_in; [apply Permutation_sym; exact HP|]. eapply In_firstn. exact Hx. }
+  split; [intros o s Ho Hs; apply (finish_cell a t); assumption|].
+  split; [apply finish_ids_other_nz; assumption|].
+  split; [intros x Hx; apply (finish_md_axis a t); assumption|].
+  split; [intros y Hy; apply (finish_md_other a t); assumption|].
+  apply finish_type; assumption.
+Qed.
+
+(* ------------------------------------------------------------------ the method: refusals, receiver *)
+Theorem subsample_receiver_unchanged n a by_id wr lay draws t : fst (subsample n a by_id wr lay draws t) = t.
+Proof.
+  unfold subsample. destruct (n <? 0)%Z; [reflexivity|]. destruct (wr && by_id); [reflexivity|].
+  destruct by_id; [reflexivity|]. destruct wr; reflexivity.
+Qed.
+
+Theorem subsample_refusals n a by_id wr lay draws t :
+  ((n < 0)%Z \/ (wr = true /\ by_id = true)) -> snd (subsample n a by_id wr lay draws t) = RErr E_VALUE.
+Proof.
+  unfold subsample. intros [H|[-> ->]].
+  - apply Z.ltb_lt in H. rewrite H. reflexivity.
+  - destruct (n <? 0)%Z; reflexivity.
+Qed.
+
+Theorem subsample_dispatch n a lay draws t : (0 <= n)%Z ->
+  snd (subsample n a false false lay draws t) = ROk (subsample_counts (Z.to_nat n) a lay draws t) /\
+  snd (subsample n a false true lay draws t) = subsample_replace a lay draws t /\
+  snd (subsample n a true false lay draws t) = ROk (subsample_by_id (Z.to_nat n) a (nth 0 draws []) t).
+Proof.
+  intros H. apply Z.ltb_ge in H. unfold subsample. rewrite H. repeat split; reflexivity.
+Qed.
+
+(* ------------------------------------------------------------------ coherence, unconditionally
+   (any layout, any draws: whenever the model returns a table it is coherent; used by C05) *)
+Lemma same_len_rect C (vs vs1 : list (list Z)) :
+  Forall2 (fun v v' : list Z => length v' = length v) vs vs1 -> rect C vs -> rect C vs1 /\ length vs1 = length vs.
+Proof.
+  intros H R. split; [|symmetry; eapply F2_length; exact H].
+  unfold rect in *. induction H as [|v v' vs vs1 L _ IH]; [constructor|].
+  inversion R; subst. constructor; [congruence|apply IH; assumption].
+Qed.
+
+Lemma sub_vecs_shape n : forall vs lay draws,
+  Forall2 (fun v v' : list Z => length v' = length v) vs (sub_vecs n vs lay draws).
+Proof.
+  induction vs as [|v vs IH]; intros lay draws; simpl; [constructor|].
+  destruct (sub_seg n (gather 0%Z (hd [] lay) v) draws) as [[o draws'] ok].
+  constructor; [apply scatter_length|apply IH].
+Qed.
+
+Lemma rep_vecs_shape : forall vs lay draws vs1,
+  rep_vecs vs lay draws = Some vs1 -> Forall2 (fun v v' : list Z => length v' = length v) vs vs1.
+Proof.
+  induction vs as [|v vs IH]; intros lay draws vs1 H; simpl in H.
+  - inversion H. constructor.
+  - destruct (rep_seg (gather 0%Z (hd [] lay) v) draws) as [[o draws']|]; [|discriminate].
+    destruct (rep_vecs vs (tl lay) draws') as [r|] eqn:E; [|discriminate]. simpl in H. inversion H; subst.
+    constructor; [apply scatter_length|eapply IH; exact E].
+Qed.
+
+Lemma wf_drop_nonpositive a t : wf t -> wf (drop_nonpositive a t).
+Proof. intros W. unfold drop_nonpositive, filter_pred. apply wf_filter_mask. exact W. Qed.
+
+Lemma wf_with_same_len a t vs1 :
+  wf t -> Forall2 (fun v v' : list Z => length v' = length v) (axis_vecs a t) vs1 -> wf (with_axis_vecs a t vs1).
+Proof.
+  intros W H. destruct (same_len_rect (n_other a t) _ _ H (axis_vecs_rect a t W)) as [Rc Rl].
+  rewrite (axis_vecs_length a t W) in Rl. apply wf_with_axis_vecs; assumption.
+Qed.
+
+Theorem subsample_counts_wf n a lay draws t : wf t -> wf (subsample_counts n a lay draws t).
+Proof.
+  intros W. unfold subsample_counts, kernel_table_wo. apply wf_drop_nonpositive, wf_drop_nonpositive.
+  apply wf_with_same_len; [exact W|apply sub_vecs_shape].
+Qed.
+
+Theorem subsample_replace_wf a lay draws t t' : wf t -> subsample_replace a lay draws t = ROk t' -> wf t'.
+Proof.
+  intros W. unfold subsample_replace. destruct (rep_vecs (axis_vecs a t) lay draws) as [vs1|] eqn:E; [|discriminate].
+  intros H. inversion H; subst. apply wf_drop_nonpositive, wf_drop_nonpositive.
+  apply wf_with_same_len; [exact W|eapply rep_vecs_shape; exact E].
+Qed.
+
+Theorem subsample_by_id_wf n a shuffled t : wf t -> wf (subsample_by_id n a shuffled t).
+Proof.
+  intros W. unfold subsample_by_id. apply wf_drop_nonpositive. unfold filter_pred. apply wf_filter_mask. exact W.
+Qed.
+
+Theorem subsample_wf n a by_id wr lay draws t t' :
+  wf t -> snd (subsample n a by_id wr lay draws t) = ROk t' -> wf t'.
+Proof.
+  intros W. unfold subsample. destruct (n <? 0)%Z; [discriminate|]. destruct (wr && by_id); [discriminate|].
+  destruct by_id; simpl.
+  - intros H. inversion H; subst. apply subsample_by_id_wf. exact W.
+  - destruct wr; simpl.
+    + apply subsample_replace_wf. exact W.
+    + intros H. inversion H; subst. apply subsample_counts_wf. exact W.
 Qed.
